@@ -187,3 +187,7 @@ mod tests {
         assert!(!Version::new(0, 0, 0).is_same_minor_version(&Version::new(0, 0, 0)));
     }
 }
+
+#[cfg(all(test, saito_verif))]
+#[path = "/verif/replay/in_crate/version.rs"]
+mod verif_replay;
